@@ -41,6 +41,9 @@ def main():
     t = sub.add_parser("selftest")
     t.add_argument("--mutants", action="store_true")
     t.add_argument("--repo", default="/repo")
+    x = sub.add_parser("extra")
+    x.add_argument("what", choices=["vi"])
+    x.add_argument("--repo", default="/repo")
     r = sub.add_parser("replay")
     r.add_argument("file")
     r.add_argument("--repo", default="/repo")
@@ -57,6 +60,10 @@ def main():
             from checks import selftest
             args.repo = os.path.abspath(args.repo)
             return selftest.run(args)
+        if args.cmd == "extra":
+            from checks import extra_vi
+            args.repo = os.path.abspath(args.repo)
+            return extra_vi.run(args)
         if args.cmd == "replay":
             with open(args.file) as f:
                 rep = json.load(f)
